@@ -132,6 +132,46 @@ func TestMakeSeeds(t *testing.T) {
 	add("RAW", "deep nesting", []byte(repeat("[", 100000)))
 	add("RAW", "empty", []byte{})
 	writeCase(t, dir, "seed-survivable-hostile-inputs.json", &Case{Mode: "inputs", Seed: seed, Opts: o, Inputs: reg})
+
+	// history: the only validator unstakes everything while the fee pool is above the distribution threshold:
+	// the total power is zero at the next block end (fixed 0dadc25: fee shares were divided by it)
+	hp := sim.DefaultParams()
+	hp.Seed = "c18-zero-power"
+	hp.ValPower = []int64{3000000}
+	hw, err := hist.NewWorld(hp, hist.Roles(hp, 1))
+	if err != nil {
+		t.Fatal(err)
+	}
+	defer hw.Close()
+	if _, err := hw.Init(); err != nil {
+		t.Fatal(err)
+	}
+	htr := &hist.Trace{Params: hp, Roles: hist.Roles(hp, 1), Profile: "seed"}
+	hv, hu := hw.G.U.Vals[0], hw.G.U.Users
+	blk := func(txs ...txgen.Tx) {
+		spec := sim.BlockSpec{GapSecs: 5}
+		for _, x := range txs {
+			spec.Txs = append(spec.Txs, x.Bytes)
+		}
+		st := hist.BlockStep(spec, txs)
+		htr.Steps = append(htr.Steps, st)
+		hw.RunBlock(spec)
+	}
+	blk()
+	var sends []txgen.Tx
+	for i := 0; i < 6; i++ {
+		sends = append(sends, txgen.Send(hu[i%3], hu[i%3].Addr, hu[3].Addr, txgen.Amt("OLT", big.NewInt(1000)), hw.Fee, hw.Memo()))
+	}
+	blk(sends...)
+	blk(txgen.Unstake(hv.Key.Addr, hv.Stake.Addr, txgen.Amt("OLT", big.NewInt(3000000)), hw.Fee, hw.Memo(), hv.Stake, hv.Key))
+	for i := 0; i < 4; i++ {
+		blk(txgen.Send(hu[0], hu[0].Addr, hu[1].Addr, txgen.Amt("OLT", big.NewInt(7)), hw.Fee, hw.Memo()))
+	}
+	recs := hw.ValRecs()
+	if len(recs) != 1 || recs[0].Power != 0 {
+		t.Fatalf("zero-power seed: the validator record is %+v", recs)
+	}
+	writeCase(t, dir, "fixed-fee-distribution-zero-total-power.json", &Case{Mode: "history", Trace: htr})
 }
 
 func repeat(s string, n int) string {
